@@ -403,7 +403,8 @@ class ProtocolContext:
             try:  # the wrapped function (actual Tx.write)
                 await self._send_fnc(cmd)
             except exc.TransportError as err:
-                self.set_state(IsInIdle, exception=err)
+                if self._cmd is cmd and isinstance(self._state, WantEcho | WantRply):
+                    self.set_state(IsInIdle, exception=err)
 
         # TODO: check what happens when exception here - why does it hang?
         assert cmd is not None, f"{self}: Coding error"
